@@ -68,6 +68,49 @@ Theorem C11_bool_connectives : forall a b : bool,
 Proof. exact b4_bool_connectives. Qed.
 Print Assumptions C11_bool_connectives.
 
+(* compile-time requirements are also checked when the scene is sampled (falsifiedByInner): a
+   scene is discarded only when no continuation of its initial valuation satisfies the formula *)
+Theorem C11_scene_check_reject_sound : forall phi b s0 w, early_fragment phi = true ->
+  run_site b phi (s0 :: w) = SRejectScene -> forall w', fltl phi (s0 :: w') 0 = false.
+Proof. exact run_site_scene_reject_sound. Qed.
+Print Assumptions C11_scene_check_reject_sound.
+
+(* ... with or without that check, the simulation is accepted exactly when the whole trace
+   satisfies the formula *)
+Theorem C11_site_accept_iff : forall phi b tr, early_fragment phi = true -> tr <> [] ->
+  (run_site b phi tr = SAccept <-> fltl phi tr 0 = true).
+Proof. exact run_site_accept_iff. Qed.
+Print Assumptions C11_site_accept_iff.
+
+(* ... a scene the check discards is one the run would have rejected at step 0 (any formula),
+   and without the check the outcome is the run's *)
+Theorem C11_scene_reject_is_step0 : forall phi s0 w,
+  run_site true phi (s0 :: w) = SRejectScene -> run phi (s0 :: w) = Reject 0.
+Proof. exact run_site_scene_reject_is_step0. Qed.
+Print Assumptions C11_scene_reject_is_step0.
+
+Theorem C11_site_no_check : forall phi tr,
+  run_site false phi tr = match run phi tr with Accept => SAccept | Reject t => SReject t end.
+Proof. exact run_site_no_check. Qed.
+Print Assumptions C11_site_no_check.
+
+(* the reference semantics has the usual dualities, and the monitor's derived operators are the
+   dual forms by construction: always p = not eventually not p, implies = or-not,
+   eventually p = (p implies p) until p *)
+Theorem C11_reference_dualities : forall p q tr i,
+  fltl (Always p) tr i = fltl (Not (Eventually (Not p))) tr i /\
+  fltl (Eventually p) tr i = fltl (Until (Implies p p) p) tr i /\
+  fltl (Implies p q) tr i = fltl (Or (Not p) q) tr i /\
+  mon (Always p) tr i = mon (Not (Eventually (Not p))) tr i /\
+  mon (Implies p q) tr i = mon (Or (Not p) q) tr i.
+Proof.
+  intros p q tr i. split; [exact (fltl_always_dual p tr i)|].
+  split; [exact (fltl_eventually_until p tr i)|].
+  split; [exact (fltl_implies_or p q tr i)|].
+  split; [exact (mon_always_dual p tr i) | exact (mon_implies_or p q tr i)].
+Qed.
+Print Assumptions C11_reference_dualities.
+
 (* F5: outside the fragments the faithful model of rv_ltl violates the property *)
 Theorem C11_nested_until_refuted :
   exists f tr, fltl f tr 0 = true /\ run f tr = Reject 3 /\ verdict f tr = BF.
@@ -95,5 +138,8 @@ Example C11_examples :
   run (Until (Atom 0) (Atom 1)) [[true; false]; [true; false]] = Reject 1 /\
   run (Until (Atom 0) (Atom 1)) [[true; false]; [false; true]] = Accept /\
   run (Eventually (Atom 0)) [[false]; [false]] = Reject 1 /\
-  run (Not (Next (Atom 0))) [[false]] = Accept.
+  run (Not (Next (Atom 0))) [[false]] = Accept /\
+  run_site true (Always (Atom 0)) [[false]; [true]] = SRejectScene /\
+  run_site false (Always (Atom 0)) [[false]; [true]] = SReject 0 /\
+  run_site true (Eventually (Atom 0)) [[false]; [true]] = SAccept.
 Proof. vm_compute. repeat split; reflexivity. Qed.
